@@ -102,7 +102,14 @@ theorem M_filterList_loop {σ : Type} (filter : Val → σ → G ((List Val × O
 theorem M_filterList_rec {σ : Type} (l : List Val) (filter : Val → σ → G ((List Val × Option Err) × σ)) (st : σ) :
     filterList' l filter st = filterRec filter l [] st := by
   unfold filterList'
-  exact M_filterList_loop filter _ (fun v ret st => rfl) l [] st
+  refine M_filterList_loop filter _ (fun v ret st => ?_) l [] st
+  -- the generator emits `if err == nil then next else ret` for Go's `if err != nil { return }`
+  dsimp only
+  cases filter v st with
+  | error e => rfl
+  | ok p =>
+    obtain ⟨⟨l2, err⟩, st'⟩ := p
+    cases err <;> rfl
 
 /-! ## util.go:popListString -/
 
@@ -135,7 +142,7 @@ theorem M_popListString_eq (l : List Val) (s : String) : popListString' l s = .o
   · intro x _ found
     cases x with
     | str t =>
-      simp only [Go.asStr, Bool.not_true, Bool.false_eq_true, if_false, str_beq]
+      simp only [Go.asStr, if_true, str_beq]
       by_cases ht : (t == s) = true <;> simp [ht]
     | _ => simp [Go.asStr] <;> rfl
 
@@ -182,7 +189,7 @@ theorem M_popListMapBoolValue_eq (l : List Val) (k : String) (b : Bool) :
   cases hh : hasListMapBool l k b with
   | false => simp [popRes]
   | true =>
-    simp only [M_filterList_rec, Bool.not_true, Bool.false_eq_true, if_false]
+    simp only [M_filterList_rec, if_true]
     rw [popListMapBool_rec k b _ _ _ _ l []]
     · cases List.foldlM (popStep k b) [] l <;> simp [popRes]
     · intro x hx
@@ -192,11 +199,12 @@ theorem M_popListMapBoolValue_eq (l : List Val) (k : String) (b : Bool) :
         simp [Go.asMap, T_popMapBoolValue_eq, this]
       | _ => simp [Go.asMap]
     · intro m hm hlen
-      simp [Go.asMap, T_popMapBoolValue_eq, hm, hlen]
+      have he : fdel m k = [] := List.eq_nil_of_length_eq_zero hlen
+      simp [Go.asMap, T_popMapBoolValue_eq, hm, he]
     · intro m hm hlen
-      have : ¬ (fdel m k).length = 0 := by omega
-      simp [Go.asMap, T_popMapBoolValue_eq, hm]
-      intro h0; rw [h0] at hlen; simp at hlen
+      have he : ¬ fdel m k = [] := by
+        intro h0; rw [h0] at hlen; simp at hlen
+      simp [Go.asMap, T_popMapBoolValue_eq, hm, he]
 
 /-! ## merge.go:mergeListDelete -/
 
@@ -337,10 +345,12 @@ theorem mergeListMatch_step (f : Nat) (obj : List Val) (m : Val) (v : Fields)
     simp only [hv] at hclone hmerge
     simp only [if_true]
     by_cases hlen : (fdel v "$value").length > 0
-    · simp [hlen, listRes]
-    · have hlen' : ¬ ((Int.ofNat (fdel v "$value").length) > (0 : Int)) := by
-        simp only [Int.ofNat_eq_natCast]; omega
-      simp only [hlen', decide_false, Bool.false_eq_true, if_false, hlen]
+    · have he : (fdel v "$value").isEmpty = false := by
+        rw [List.isEmpty_eq_false_iff]; intro h0; rw [h0] at hlen; simp at hlen
+      simp [hlen, listRes, he]
+    · have he : (fdel v "$value").isEmpty = true := by
+        rw [List.isEmpty_iff]; exact List.eq_nil_of_length_eq_zero (by omega)
+      simp only [he, if_true, hlen, if_false]
       rw [filterRec_match m v2 _ obj _ [] false]
       · unfold matchOnly
         cases List.mapM (fun e => if matchV e m then merge e v2 else pure e) obj with
@@ -488,22 +498,24 @@ theorem mergeListList_step (f : Nat) (d s : List Val)
       | false =>
         have hs2 : s2 = s := popListMapBool_false hpop
         subst hs2
-        simp only [popRes, bne_self_eq_false, Bool.false_eq_true, if_false]
+        simp only [popRes, Bool.false_eq_true, if_false]
         unfold dropRequired
         rw [mergeListList_loop s2 _ _ (List.filter (fun x => !(x == Val.str "$required")) d)]
         · cases mergeEntries (List.filter (fun x => !(x == Val.str "$required")) d) s2 <;> simp [listRes]
         · intro v hv d0
           cases v with
           | map kvs =>
-            simp only [Go.asMap, Bool.not_true, Bool.false_eq_true, if_false, popMapValue_eq_match, entryStep]
+            simp only [Go.asMap, if_true, popMapValue_eq_match, entryStep]
             cases hd : fget kvs "$delete" with
             | some del =>
               simp only [if_true]
               by_cases hlen : (fdel kvs "$delete").length > 0
-              · simp [hlen]
-              · have hlen' : ¬ ((Int.ofNat (fdel kvs "$delete").length) > (0 : Int)) := by
-                  simp only [Int.ofNat_eq_natCast]; omega
-                simp only [hlen', decide_false, Bool.false_eq_true, if_false, hlen, hdel kvs del hv hd d0]
+              · have he : (fdel kvs "$delete").isEmpty = false := by
+                  rw [List.isEmpty_eq_false_iff]; intro h0; rw [h0] at hlen; simp at hlen
+                simp [hlen, he]
+              · have he : (fdel kvs "$delete").isEmpty = true := by
+                  rw [List.isEmpty_iff]; exact List.eq_nil_of_length_eq_zero (by omega)
+                simp only [he, if_true, if_false, hlen, hdel kvs del hv hd d0]
                 cases mergeListDelete d0 del <;> simp [listRes]
             | none =>
               simp only [Bool.false_eq_true, if_false]
